@@ -122,6 +122,22 @@ def _menu():
     m['cluster_partition'] = lambda: ((lambda r, L: r.partition(L)), (cu.ClusterResult(center_indices=np.array([3, 0]), distances=np.arange(5.0),
                                                                                          assignments=np.array([0, 0, 1, 1, 1]), centers=[1, 2]), [2, 3]), {})
     m['reactive_populations_given'] = lambda: (tpt.reactive_populations, (np.asfortranarray(T()), [0], [2]), {'populations': np.array([0.25, 0.5, 0.25])})
+    # remaining public routines of the information-theory / MSM / CARDS modules
+    from enspara.msm import timescales
+    Msym = lambda: np.array([[0.7, 0.2, 0.1], [0.2, 0.9, 0.3], [0.1, 0.3, 0.8]])
+    m['mi_to_nmi'] = lambda: (mi.mi_to_nmi, (Msym(),), {})
+    m['mi_to_apc'] = lambda: (mi.mi_to_apc, (Msym(),), {})
+    m['mi_to_nmi_apc'] = lambda: (mi.mi_to_nmi_apc, (Msym(),), {'H_marginal': np.array([0.9, 1.0, 1.1])})
+    m['deconvolute_network'] = lambda: (mi.deconvolute_network, (Msym() / 4,), {})
+    m['mi_matrix_serial'] = lambda: (mi.mi_matrix_serial, ([F(), F()[::-1].copy()], [F(), F()], [2, 3], [2, 3]), {'normalize': False})
+    m['relative_entropy_per_state'] = lambda: (ent.relative_entropy_per_state, (T(), np.array([[0.4, 0.6, 0.0], [0.3, 0.4, 0.3], [0.1, 0.4, 0.5]])), {})
+    m['relative_entropy_msm'] = lambda: (ent.relative_entropy_msm, (T(), np.array([[0.4, 0.5, 0.1], [0.3, 0.4, 0.3], [0.1, 0.4, 0.5]])),
+                                         {'populations': np.array([0.25, 0.5, 0.25])})
+    m['relative_entropy_msm_eq'] = lambda: (ent.relative_entropy_msm, (T(), np.array([[0.4, 0.5, 0.1], [0.3, 0.4, 0.3], [0.1, 0.4, 0.5]])), {})
+    m['Q_from_assignments'] = lambda: (ent.Q_from_assignments, (ra.RaggedArray([[0, 1, 1, 2], [2, 0, 1]]),), {'n_states': 3})
+    m['energy_to_probability'] = lambda: (ent.energy_to_probability, (np.array([0.0, 1.5, 3.0]),), {})
+    m['implied_timescales'] = lambda: (timescales.implied_timescales, (ra.RaggedArray([[0, 1, 1, 2, 0, 1], [2, 0, 1, 2, 2]]), [1, 2], builders.transpose),
+                                       {'n_times': 2})
     # sparse matrices with >= 1000 states take the ARPACK path
     m['eigenspectrum_sparse_1000'] = lambda: (tm.eigenspectrum, (_big_sparse(),), {'n_eigs': 3})
     m['eq_probs_sparse_1000'] = lambda: (tm.eq_probs, (_big_sparse(),), {})
@@ -483,7 +499,9 @@ def _menu_names():
     return MENU_NAMES
 
 
-MENU_NAMES = ['builder_normalize_zero_rows', 'builder_transpose_zero_rows', 'builder_normalize_zero_rows_csr', 'trim_inplace',
+MENU_NAMES = ['mi_to_nmi', 'mi_to_apc', 'mi_to_nmi_apc', 'deconvolute_network', 'mi_matrix_serial', 'relative_entropy_per_state',
+              'relative_entropy_msm', 'relative_entropy_msm_eq', 'Q_from_assignments', 'energy_to_probability', 'implied_timescales',
+              'builder_normalize_zero_rows', 'builder_transpose_zero_rows', 'builder_normalize_zero_rows_csr', 'trim_inplace',
               'ra_getitem_index_arrays', 'ra_getitem_0d_index', 'ra_setitem_index_arrays', 'ra_getitem_rowarray',
               'partition_indices_ndarray', 'cluster_partition', 'reactive_populations_given', 'eigenspectrum_sparse_1000',
               'eq_probs_sparse_1000', 'shannon_entropy_zero', 'shannon_entropy_2d_zero', 'shannon_entropy_pos', 'kl', 'js', 'mutual_information',
